@@ -192,6 +192,16 @@ def PVarType.text : PVarType → String
   | .real lo hi => "Real(" ++ optText "MinusInfinity" lo ++ ", " ++ optText "Infinity" hi ++ ")"
   | .intRange lo hi => "IntegerRange(" ++ fmtExp lo ++ ", " ++ fmtExp hi ++ ")"
 
+/-- the declaration the printed text stands for: a missing bound next to a given one is written as its default
+(`0`, `MinusInfinity`, `Infinity`), so `x as Real(2)` is printed — and read back — as `x as Real(2, Infinity)`;
+a type without bounds or with both is unchanged -/
+def PVarType.canon : PVarType → PVarType
+  | .nonNegReal none none => .nonNegReal none none
+  | .nonNegReal lo hi => .nonNegReal (some (lo.getD (.int 0))) (some (hi.getD (.var "Infinity")))
+  | .real none none => .real none none
+  | .real lo hi => .real (some (lo.getD (.var "MinusInfinity"))) (some (hi.getD (.var "Infinity")))
+  | t => t
+
 structure PDomain where
   vars : List CName
   ty : PVarType
@@ -210,6 +220,10 @@ structure PModel where
   constants : List (String × PExp)
   domains : List PDomain
   deriving Repr, Inhabited
+
+def PDomain.canon (d : PDomain) : PDomain := { d with ty := d.ty.canon }
+/-- the program with every one-sided domain bound completed by its default -/
+def PModel.canon (m : PModel) : PModel := { m with domains := m.domains.map PDomain.canon }
 
 /-- `s.split("\n").collect::<Vec<_>>().join("\n    ")` -/
 def reindent (s : String) : String :=
